@@ -32,6 +32,26 @@ CHECKS = {'C01': {'note': 'trusted: rustc MIR + trait resolution, PANIC_API/SAFE
          'technique': 'MIR discriminant-switch extraction + who-may-construct rule',
          'text': 'Decides which failures count as absence: has/coalesce partition CelError into exactly {Binding, Attribute} vs propagate, only the frozen '
                  'sites can construct an absent-class error, both are run-time macros. Laziness of coalesce arguments is not decided.'},
+ 'C05': {'note': 'trusted: rustc MIR; symex summaries of Vec/iterator adapters; the abstract domain {truthy, falsy, failing} is exact for TEST/JMPCOND/NOT/OR/AND because they branch only on is_err / is_truthy / the Bool payload, which is itself checked; chains unrolled to three operands, match to two cases',
+         'technique': 'symbolic execution of parser MIR into emission templates + abstract interpretation of the templates over {truthy, falsy, failing} with VM semantics extracted from MIR',
+         'text': 'Decides laziness and failure absorption on the EMITTED CODE rather than on sampled runs: every template the parser can emit for || && ?: and match (all builder paths, extracted by '
+                 'symbolic execution of the parse functions) is interpreted over the operand classes {truthy, falsy, failing} using the VM arm semantics (TEST, DUP, POP, NOT, JMPCOND, JMP, OR, AND) and the '
+                 'absorption tables of or()/and()/not(), all of which are themselves extracted from MIR by symbolic execution and compared with the statement; for every class assignment the code must evaluate '
+                 'exactly the permitted operands and yield the demanded class. Also: || and && are never folded through the strict or()/and(), the folded ternary selects by is_truthy and keeps a failed condition, '
+                 'is_truthy has the documented per-variant table and the logical layer consults nothing else. Laziness observed through user call-counting functions is the same fact and is not run.'},
+ 'C09': {'note': 'trusted: rustc MIR; symex summaries; CelValue operations are the same resolved functions on both sides; loops unrolled to two / three elements',
+         'technique': 'symbolic execution: folder term vs symbolic VM value of the emitted template, per operator',
+         'text': 'Decides the points where folder and VM could disagree: for every operator template (relations incl. in, + - * / %, index, list and map literals) the term the compile-time evaluator computes on '
+                 'constant operands is compared with the value obtained by interpreting the emitted code with the VM arm semantics (callee, operand order, entry order; both extracted from MIR by symbolic execution); a '
+                 'node is constant only when all its operands are, otherwise every operand occurs exactly once in the code; call results are frozen only when reads_clock() is false and evaluation succeeded, reads_clock() '
+                 'names every registry entry that can reach the system clock, and a frozen result cannot embed a failed element; compile-time macros are a sub-table of the run-time ones; prefix-operator lists are never '
+                 'constants. The general substitution property over arbitrary programs is not decided.'},
+ 'C10': {'note': 'trusted: rustc MIR; symex summaries; inductive hypothesis: children satisfy their stack contract; loops unrolled to two / three elements and one outer iteration over an arbitrary node; hand-made CelByteCode is only bounds-checked',
+         'technique': 'symbolic execution of the parse functions into emission templates + abstract stack/label interpretation against the VM effect table extracted by symbolic execution of the dispatch arms',
+         'text': 'Decides well-formedness by induction over the grammar: every template of every parse function (all builder paths, incl. nested call / f-string blocks) is abstractly executed with the per-opcode stack '
+                 'effects extracted from the VM itself: heights agree where paths meet, nothing pops an empty stack, the block ends with its contract height, every jump goes forward to a label placed exactly once inside '
+                 'the block (hence in range and loop-free). The VM effect table equals the reviewed one and covers every ByteCode variant; resolver and VM use the same jump base and checked_jump_target returns exactly '
+                 'the bounds-checked value; only resolve() builds raw relative jumps; the builder API the extraction summarises appends every element in order.'},
  'C11': {'note': "trusted: Rust's aliasing rules; user-bound functions outside the analysed program",
          'technique': 'effect / who-may-call rules + type-closure walk',
          'text': 'Decides: no static mut / thread-local, no interior mutability reachable from CelContext/BindContext/Program, clock read only by '
@@ -77,14 +97,8 @@ CHECKS = {'C01': {'note': 'trusted: rustc MIR + trait resolution, PANIC_API/SAFE
 NOT_APPLICABLE = {'C02': "the deciding rule (level chain + token table extracted from the parse functions' syntax) needs the syntax-level extractor (synfacts/ETX of DESIGN.md "
         'section 2) which was not built in the time available; no sound cheaper structural clause was found that would not also fire on behaviour-preserving '
         'edits',
- 'C05': 'laziness and absorption are properties of the emitted bytecode templates; deciding them statically needs the emission-template extractor (not built). '
-        'The ternary defect found while reading was repaired (fix: d45e1c9) but no check guards it',
  'C06': 'index bounds are covered as panic edges by C01 (table rows of CelValue::index); construction-order agreement of MkList/MkDict vs the folder needs the '
         'template extractor (not built)',
- 'C09': 'fold/VM agreement needs the pairing of const-arm expressions with VM arms from the expanded compile! sites (syntax-level extractor, not built); a '
-        'remaining genuine disagreement is recorded in DESIGN.md ([x].filter(v, true) folded with x unbound) without a check',
- 'C10': 'well-formedness of all emitted templates needs the emission-template extractor (not built); only the VM-side bounds check is verified, under C01 '
-        'R01.5',
  'C17': 'deciding that details flow on every builder path needs a dataflow over CompiledProg values in the parser (designed, not built). The defect is genuine '
         'and unrepaired: Program::from_source("size(y)").params() is empty (also x.f(y), [1].map(v, v+q), f\'{x}\')',
  'C18': 'span exactness depends on token positions at run time; the look-ahead typestate rule over the parser was designed but not built'}
